@@ -50,5 +50,5 @@ Deliver, in {wt}/out/ :
   - mut_demo.rs : a copy of the demonstration test file.
   - notes.md : sections "The change", "What it needs to manifest" (precise trigger), "Why the existing suite does not
     notice", "Demonstration" (what you ran, results with and without the change, result of the full existing suite).
-Do not commit anything. Do not delete the worktree. When done, reply with a five-line summary: what the change is, the
+Do not commit anything. Do not delete the worktree. Do NOT use `git stash` (the stash is shared with other people's worktrees): to test without your change use `git apply -R out/patch.diff` and then `git apply out/patch.diff`. When done, reply with a five-line summary: what the change is, the
 trigger, demo result with/without, full-suite result with the change.""")
